@@ -79,6 +79,11 @@ def run(prog, rep):
     jobs += [("stockdriven", c) for c in SC.int_driver_configs(rep.tier) + SC.layout_configs(rep.tier)]
     jobs += [("stockdriven", dict(n_t=3, labels=(), dist=d, over="number", n_pts=n, inflow_at=ia, via_to_stock_type=True))
              for d in ("NormalLifetime", "FixedLifetime") for n, ia in ((1, "middle"), (1, "start"), (2, "middle"))]
+    # fixed lifetimes that get SHORTER for later cohorts on the concrete yearly grid: an older cohort outlives a younger one, the survival
+    # table has exact zeros that are not in age order (every cohort still survives its first interval)
+    from fractions import Fraction as _F
+    for means in ([_F(7, 2), _F(7, 2), _F(3, 2), _F(3, 2)], [_F(9, 2), _F(3, 2), _F(5, 2), _F(3, 2), _F(3, 2)]):
+        jobs += [("stockdriven", dict(n_t=len(means), labels=(), dist="FixedLifetime", over="time", n_pts=1, inflow_at="middle", grid="unit", prm_values={"A": means}))]
     # inflow at the END of the period (the diagonal of the survival table is the share surviving an age of zero) and two points with it
     jobs += [("stockdriven", dict(n_t=3, labels=(), dist=d, over="number", n_pts=n, inflow_at="end", both_generic=True))
              for d in ("NormalLifetime", "LogNormalLifetime") for n in (1, 2)]
